@@ -40,10 +40,16 @@ def not_in_range(trial_datum, lower, upper):
 
 
 def factor_of(trial_datum, value) -> bool:
+    if isinstance(value, str):
+        # `str % x` is string formatting, not a remainder
+        raise TypeError("A string has no factors.")
     return value % trial_datum == 0
 
 
 def has_factor(trial_datum, value) -> bool:
+    if isinstance(trial_datum, str):
+        # `str % x` is string formatting, not a remainder
+        raise TypeError("A string has no factors.")
     return trial_datum % value == 0
 
 
